@@ -193,8 +193,13 @@ class DocGen:
             lo, hi = Fraction(from_bits(b)), Fraction(from_bits(b + 1))
             mid = (lo + hi) / 2
             t = frac_to_decimal(mid)
-            if rng.random() < 0.4:  # nudge by one unit in the last place shown, so not a tie any more
+            k = rng.random()
+            if k < 0.4:  # nudge by one unit in the last place shown, so not a tie any more
                 t = t[:-1] + ("6" if t[-1] == "5" else "4")
+            elif k < 0.55:
+                # ... or break the tie with a single non-zero digit a long way behind it: every digit counts, however long the token
+                t = (t if "." in t else t + ".") + "0" * rng.choice([1, 17, 40, 400, 770, 1000, 1075, 1100, 1200, 2000, 5000]) + rng.choice("19")
+                self.st("num.dbl_halfway_plus_far_digit")
             self.st("num.dbl_halfway")
         elif r < 0.8:  # long digit strings
             t = "".join(rng.choice("0123456789") for _ in range(rng.randrange(20, 45)))
